@@ -590,6 +590,13 @@ def discharge(F, s, ctxinfo):
             n = args[-1]
             if n[0] == "call" and re.search(r"::len$", n[1]):
                 return "capacity is the length of a collection that already exists"
+            if n[0] == "call" and re.search(r"Iterator>?::sum$", n[1].split("{")[0]) and n[2]:
+                # the total length of collections that already exist (they fit in memory together)
+                mp = [x for x in calls_in(n[2][0]) if itm(x[1], "map") and len(x[2]) == 2 and x[2][1][0] == "closure" and x[2][1][1] in F.bodies]
+                if n[2][0][0] == "call" and itm(n[2][0][1], "map") and len(mp) >= 1:
+                    crt = nosite(deep_strip(Terms(F.bodies[mp[0][2][1][1]]).return_term()))
+                    if crt[0] == "call" and re.search(r"::len$", crt[1]):
+                        return "capacity is the summed length of collections that already exist"
             if n[0] == "const":
                 return "constant capacity"
             return None
